@@ -591,8 +591,9 @@ class Watcher(object):
         # when an on_demand process dies, do not restart it until
         # the next event
         if self.pending_socket_event:
-            if not self.processes:
+            if not self.processes and not self.is_stopped():
                 self._status = "stopped"
+                self.notify_event("stop", {"time": time.time()})
             return
         for i in self._found_wids:
             self.spawn_process(i)
